@@ -1,6 +1,8 @@
 package main
 
 import (
+	"math"
+
 	"verifharness/vh"
 )
 
@@ -16,6 +18,8 @@ type vop struct {
 	shift int    // index of the operand that is a shift amount / bit count (-1: none)
 	sdstv bool   // destination is a scalar register (v_readfirstlane)
 	alus  string // "" both, else the only ALU
+	flt   int    // 1: binary32 operands, 2: binary32 operands with a literal K following the instruction
+	macc  bool   // the destination is also the third source (v_mac / v_fmac)
 }
 
 func v2(op int) vop { return vop{fmt: "VOP2", op: op, nsrc: 2, w: [3]int{1, 1, 0}, dw: 1, shift: -1} }
@@ -24,6 +28,7 @@ func v3(op, n int) vop {
 }
 func (v vop) sh(i int) vop      { v.shift = i; return v }
 func (v vop) only(a string) vop { v.alus = a; return v }
+func (v vop) f() vop            { v.flt = 1; return v }
 
 var vecOps = func() []vop {
 	var t []vop
@@ -47,9 +52,35 @@ var vecOps = func() []vop {
 		x.cin, x.mdst = 1, 1
 		t = append(t, x)
 	}
+	t = append(t, v2(38).only("cdna3"), v2(42).sh(0).only("cdna3"))
+	t = append(t, vop{fmt: "VOPC", op: 164, nsrc: 2, w: [3]int{1, 1, 0}, mdst: 1, shift: -1, alus: "cdna3"})
 	for _, op := range []int{52, 53, 54} {
 		t = append(t, v2(op))
 	}
+	// binary32
+	for _, op := range []int{1, 2, 3, 5, 10, 11} {
+		t = append(t, v2(op).f())
+	}
+	mac := v2(22).f().only("gcn3")
+	mac.macc = true
+	fmac := v2(59).f().only("cdna3")
+	fmac.macc = true
+	mk := v2(23).only("cdna3")
+	mk.flt = 2
+	ak := v2(24)
+	ak.flt = 2
+	t = append(t, mac, fmac, mk, ak)
+	for _, op := range []int{5, 6} {
+		t = append(t, vop{fmt: "VOP1", op: op, nsrc: 1, w: [3]int{1, 0, 0}, dw: 1, shift: -1})
+	}
+	for _, op := range []int{7, 8} {
+		t = append(t, vop{fmt: "VOP1", op: op, nsrc: 1, w: [3]int{1, 0, 0}, dw: 1, shift: -1, flt: 1})
+	}
+	for _, op := range []int{65, 66, 67, 68, 69, 70, 73, 74, 75, 76, 77, 78} {
+		t = append(t, vop{fmt: "VOPC", op: op, nsrc: 2, w: [3]int{1, 1, 0}, mdst: 1, shift: -1, flt: 1})
+		t = append(t, vop{fmt: "VOP3A", op: op, nsrc: 2, w: [3]int{1, 1, 0}, mdst: 2, shift: -1, flt: 1})
+	}
+	t = append(t, v3(258, 2).f(), v3(261, 2).f(), v3(449, 3).f(), v3(459, 3).f())
 	// VOP1
 	for _, op := range []int{1, 43, 44, 45} {
 		t = append(t, vop{fmt: "VOP1", op: op, nsrc: 1, w: [3]int{1, 0, 0}, dw: 1, shift: -1})
@@ -109,6 +140,24 @@ func encVOP3(op, vdst, sdstOrAbs, s0, s1, s2 int) []uint32 {
 var vecCorners = []uint32{0, 1, 0x7fffffff, 0x80000000, 0xfffffffe, 0xffffffff}
 var vecAmounts = []uint32{0, 1, 31, 32, 33, 63, 64, 0xffffffff}
 
+// binary32 corners: signed zeros, ones, infinities, quiet/signalling NaN,
+// denormals, extreme normals, the integer conversion boundaries, halfway cases
+var fltCorners = []uint32{0x00000000, 0x80000000, 0x3f800000, 0xbf800000, 0x7f800000, 0xff800000, 0x7fc00000, 0x7f800001,
+	0x00000001, 0x807fffff, 0x00800000, 0x7f7fffff, 0x4f800000, 0x4f000000, 0xcf000000, 0x4effffff,
+	0x3fc00000, 0x40490fdb, 0x3f000000, 0xbf000000, 0x4b800000, 0x4b800001, 0x33800000, 0x34000001,
+	0xcf000001, 0x4f7fffff, 0x5f800000, 0xdf000000, 0x3f800001, 0x3f7fffff, 0xffc00001, 0x00400000}
+
+func fltVal(r *vh.Rng) uint32 {
+	switch r.Pick(4, 4, 2) {
+	case 0:
+		return fltCorners[r.Intn(len(fltCorners))]
+	case 1:
+		return uint32(r.U64())
+	default: // moderate magnitudes, so that sums and products round
+		return uint32(r.U64())&0x807fffff | uint32(0x3f800000+int32(r.Intn(24)-12)<<23)&0x7f800000
+	}
+}
+
 // vecCase builds one case of v. mode 0/1: corner grid (per-lane cross product
 // of the operand corners, carry-in pattern and its complement), mode 2: random.
 func vecCase(alu string, v vop, r *vh.Rng, mode int) Case {
@@ -129,6 +178,9 @@ func vecCase(alu string, v vop, r *vh.Rng, mode int) Case {
 				if v.w[k] == 2 {
 					x = []uint64{0, 1, 0x7fffffffffffffff, 0x8000000000000000, 0xfffffffffffffffe, 0xffffffffffffffff, r.U64(), uint64(uint32(r.U64()))}[idx]
 				}
+				if v.flt > 0 {
+					x = uint64(fltCorners[(idx+8*mode+4*k)%len(fltCorners)])
+				}
 			} else {
 				x = uint64(val32(r))
 				if v.shift == k {
@@ -137,8 +189,17 @@ func vecCase(alu string, v vop, r *vh.Rng, mode int) Case {
 				if v.w[k] == 2 {
 					x = val64(r)
 				}
+				if v.flt > 0 {
+					x = uint64(fltVal(r))
+				}
 			}
 			val[k][l] = x
+		}
+	}
+	if v.flt > 0 && v.nsrc == 3 && !grid {
+		for l := 0; l < 64; l += 2 {
+			p := math.Float32frombits(uint32(val[0][l])) * math.Float32frombits(uint32(val[1][l]))
+			val[2][l] = uint64(math.Float32bits(-p))
 		}
 	}
 	// operand codes
@@ -190,6 +251,9 @@ func vecCase(alu string, v vop, r *vh.Rng, mode int) Case {
 			continue
 		}
 		mustV := (v.fmt == "VOP2" || v.fmt == "VOPC") && k == 1
+		if v.flt == 2 {
+			g.lit = true // the literal slot is taken by K
+		}
 		kind := 0
 		if !grid && !mustV {
 			kind = r.Pick(60, 14, 8, 6, 4, 3, 3, 2)
@@ -288,6 +352,19 @@ func vecCase(alu string, v vop, r *vh.Rng, mode int) Case {
 	lit := []uint32{}
 	if g.lit {
 		lit = []uint32{uint32(val[0][0])}
+	}
+	if v.flt == 2 {
+		lit = []uint32{fltVal(r)}
+	}
+	if v.macc && v.dw > 0 {
+		for l := 0; l < 64; l++ { // the accumulator: vdst before the instruction
+			x := fltVal(r)
+			if !grid && l%2 == 0 {
+				p := math.Float32frombits(uint32(val[0][l])) * math.Float32frombits(uint32(val[1][l]))
+				x = math.Float32bits(-p)
+			}
+			g.c.Set = append(g.c.Set, RegVal{l, vd, x})
+		}
 	}
 	switch v.fmt {
 	case "VOP2":
